@@ -3,111 +3,110 @@
 import json, os
 V = os.path.dirname(os.path.dirname(os.path.abspath(__file__)))
 
+T = ("Trusted: Lean kernel (+ propext, Classical.choice, Quot.sound), the hand-written model tied to /repo by differential "
+     "sampling on every run, the harness (generators, codec, oracles). ")
+
 CLAIMED = {
- "C08": dict(
-   technique="Lean 4 theorems over an executable model of StepMap/Mapping (prefix-sum rule, monotonicity, deletion flags, recover, for_each, touches, inversion, composition, mirror round trip) + exact differential correspondence of every map/mapping operation with the model + documented-rule oracle on the real code",
-   text="19 kernel-checked theorems (Props/C08.lean) state the documented mapping rule in closed prefix-sum form for maps with any number of ranges of any size, both orientations and sides; the model is tied to /repo on every run by running the real StepMap/Mapping and the model on the same maps (exhaustive small scope in the thorough tier) and diffing; an independent Python statement of the rule searches for failing inputs.",
-   note="Trusted: Lean kernel + propext/Classical.choice/Quot.sound; the hand-written model lean/PM/Map.lean (tied by sampling, not proved equal to the Python); harness generators/codec. The k-map mirror round trip is proved for one mirrored pair (mirror_roundtrip_one); longer rebasing-style chains are covered by correspondence + search only.",
-   design="§5 C08"),
-
- "C02": dict(
-   technique="Lean 4 theorems: replace = token splice, slice = token range with open depths, size arithmetic, normal form, re-insertion identity, token injectivity — over a structural-recursion model of replace/slice/cut; exact differential correspondence with Node.slice/cut/replace; token-splice oracle on the real code",
-   text="13 kernel-checked property theorems (Props/C02.lean, ~2700 lines of supporting proofs) about the executable model of Fragment.cut / Node.slice / replace (three-way/two-way rebuild incl. joins, close checks, text merging) for unbounded trees and every open-depth combination; the model is run against the real code on generated (schema, document, range, slice) cases every run and outputs/outcomes are diffed; an independent Python tokenizer states the splice law directly on the real code.",
-   note="Trusted: Lean kernel (+ propext, Classical.choice, Quot.sound), the model lean/PM/{Basic,Fragment,Content,Replace}.lean tied by sampling, harness. Success of re-insertion ('the replace returns') is checked by correspondence/search, the theorem `reinsert` is conditional on it. Positions inside a surrogate pair are outside the guard (Python cannot represent the cut).",
-   design="§5 C02"),
- "C14": dict(
-   technique="Lean 4 theorems: add_to_set equals the documented rule for every schema/set, canonical form is an invariant of every add/remove sequence, check()'s mark test accepts exactly canonical sets, removal/membership/equality/filtering are the set operations; exact differential correspondence over random mark configurations",
-   text="18 kernel-checked theorems (Props/C14.lean) over the model of Mark.add_to_set/remove_from_set/is_in_set/same_set/set_from and NodeType.allowed_marks/allows_marks for arbitrary exclusion relations and unbounded sets; exact correspondence and a documented-rule oracle on random configurations ('_', empty, names, groups) every run.",
-   note="Trusted: Lean kernel, model lean/PM/Marks.lean tied by sampling, harness; compilation of `excludes`/`marks` spec strings into tables is compared with an independent reading of the spec in the harness, not proved.",
-   design="§5 C14"),
- "C20": dict(
-   technique="Lean 4 theorems: find_diff_start/end return none iff equal and otherwise the common prefix/suffix length of the marked-up token sequences; exact differential correspondence incl. identity-sharing before/after pairs under a per-call alarm",
-   text="6 kernel-checked theorems (Props/C20.lean) about the structural model of find_diff_start/find_diff_end (UTF-16 units); the real functions are run on self pairs, JSON-rebuilt copies, before/after pairs of random edits (sharing nodes by identity) and unrelated documents, each call under a 2 s alarm, and compared with the model and with an lcp/lcs oracle over to_json().",
-   note="Trusted: Lean kernel, model lean/PM/Diff.lean tied by sampling, harness. Termination of the Python loops cannot be a theorem about a total Lean function: it is decided by the alarm (a hang is a violation with the pair as replay). Guard: documents in normal form (no empty text, adjacent same-markup text merged), which every library constructor maintains.",
-   design="§5 C20"),
-
  "C01": dict(
-   technique="Lean 4 theorem apply_valid: for every schema, valid document and step of the eight kinds with a valid payload, whatever apply returns is valid (via replace_valid: every rebuilt node passes close; mark steps via C14 canonicity); exact differential correspondence of Step.apply incl. JSON-decoded steps; check()+independent spec validator as oracle",
-   text="10 kernel-checked theorems (Props/C01.lean; ~2400 lines in Proofs/ReplaceValid.lean, Proofs/StepValid.lean) over the executable model of the eight step kinds; validity is the model of Node.check (content automaton, mark permissions, canonical mark sets, recursively). The model is tied to the code by running both on generated (schema, document, step) cases incl. plausible-but-wrong wrappers and JSON-decoded steps; an independent validator derived from the schema spec (content expressions as Python regexes) checks every returned document; any non-ValueError exception is a violation.",
-   note="Trusted: Lean kernel, model lean/PM/{Step,Replace,Content,Marks}.lean tied by sampling, harness + spec validator. Guards of the theorem: payload validity (`openValid`: nodes off the open spines valid; for replace-around stated on the slice after gap insertion), `TextStable` for mark steps (merging adjacent text must not change what the parent's automaton accepts — true of every `text*`/`inline*` style expression; the exotic excluded shape is described in DESIGN.md). 'Never dies with an internal error' is decided by correspondence/search, not by a theorem.",
+   technique="Lean 4 theorems apply_valid (whatever apply returns for a valid document and valid payload is valid, all eight step kinds) and apply_no_internal (a step with a well-formed payload never ends in the internal-error outcome, no hypothesis on positions) over the executable model of Step.apply; exact differential correspondence of Step.apply incl. JSON-decoded, ill-formed and unordered steps; check() + independent spec validator as oracle",
+   text="27 kernel-checked theorems (Props/C01.lean; Proofs/ReplaceValid, StepValid, NoInternal, MarkupSuccess, MarkSuccess): validity of every result, absence of the internal-error outcome under the decidable payload condition StepWF (each hypothesis shown necessary by an example reproduced on the real code), and success characterisations (node-markup steps apply iff the parent allows the marks; range mark steps always apply under TextLoop). The model is tied to the code on generated (schema, document, step) cases every run; any non-ValueError exception for in-document positions is a violation.",
+   note=T + "Guards: payload validity (`openValid`), `TextStable`/`TextLoop` for mark steps (counterexample schema `text?` evaluated in model and code), `StepWF` (slice open depths within its spines, insert within the slice).",
    design="§5 C01"),
- "C07": dict(
-   technique="Lean 4 theorems: valid_content / check / can_replace / can_replace_with / can_append equal the definition of validity over the spliced child sequence (automaton run over concatenation, mark permissions, canonical marks); exact differential correspondence over all child index ranges; independent spec validator (regex over content expressions) as oracle, with mutated invalid documents",
-   text="11 kernel-checked theorems (Props/C07.lean) for arbitrary automata and nodes; exact correspondence of the six predicates on generated nodes, index ranges, replacement fragments and candidate types every run; the independent validator decides the expected answer from the schema spec.",
-   note="Trusted: Lean kernel, model lean/PM/Content.lean tied by sampling, harness, spec validator (Python re). The automaton is data dumped from the running code; its agreement with the content expression is C06's subject.",
-   design="§5 C07"),
- "C09": dict(
-   technique="Lean 4 theorems: resolve is total on 0..size, depth = unmatched opens, ancestor chain, start/end/before/after delimit exactly the ancestor's tokens, offsets, node_at, text_between = text units of the token window, nodes_between positions, marks(), shared depth; exact differential correspondence of every accessor at every position; token-picture oracle",
-   text="16 kernel-checked theorems (Props/C09.lean) relating the path-based model of ResolvedPos and the traversal functions to the flat UTF-16 token sequence for unbounded documents; every accessor of the real code is compared with the model at every pair-aligned position of generated documents (astral text, non-inclusive marks) and with quantities recomputed from to_json() tokens.",
-   note="Trusted: Lean kernel, model lean/PM/Resolve.lean tied by sampling, harness. block_range/NodeRange, marks_across, child_after/before and range_has_mark are tied by exact correspondence/oracle only (no theorem yet). nodeAt_spec carries the guard 'node size ≠ 0' (empty text nodes do not exist in the library).",
-   design="§5 C09"),
-
+ "C02": dict(
+   technique="Lean 4 theorems: replace = token splice, slice = token range with open depths, size arithmetic, normal form, token injectivity, and re-insertion SUCCEEDS and is the identity (reinsert_succeeds) — over a structural-recursion model of replace/slice/cut; exact differential correspondence incl. ranges that end before they start",
+   text="17 kernel-checked theorems (Props/C02.lean, ~4 k lines of supporting proofs in Proofs/TokCore, ReplaceToks, Reinsert) about the executable model of Fragment.cut / Node.slice / replace for unbounded trees and every schema; re-insertion of a cut slice is proved to apply and to give back the document for every valid normal-form document. Exact correspondence of slice / cut / replace and a token-level oracle written independently of the model on every run.",
+   note=T + "Guards: normal form (documents with adjacent same-markup text exist only via hand-written JSON), pair-aligned positions (a cut inside a surrogate pair is a ValueError in code and model).",
+   design="§5 C02"),
  "C03": dict(
-   technique="Lean 4 theorems: for replace and replace-around steps the size delta is the map's delta and every old token outside the replaced ranges is found at the mapped position; markup steps have the empty map and keep structure/text; Transform.mapping = maps of recorded steps; built on kernel-checked token semantics of every step kind (Proofs/StepToks.lean) + exact correspondence of get_map/apply + per-token oracle over every step emitted by every Transform operation",
-   text="5 kernel-checked theorems (Props/C03.lean) on top of the token-level semantics of all eight step kinds (13 theorems, Proofs/StepToks.lean) for unbounded documents; get_map of every step kind and Transform.mapping are compared exactly with the model; the oracle checks size delta and token preservation at all old positions for random primitive steps and for every step emitted by random high-level operations.",
-   note="Trusted: Lean kernel, model lean/PM/{Step,Map,Replace,Transform}.lean tied by sampling, harness. Guard of replaceAround_map_faithful: not (empty gap at the end of the range with slice content after it) — the excluded shape is a real violation of the statement on the code (touching map ranges), recorded as open known finding C03-touching-empty-gap; no library operation emits it.",
+   technique="Lean 4 theorems: for every step kind the size delta is the map's delta and every old token outside the replaced ranges is found at the mapped position (replace, replace-around, markup steps; every position; whole histories through Transform.mapping); exact correspondence of get_map; per-position oracle on primitive and emitted steps",
+   text="14 kernel-checked theorems (Props/C03.lean) on top of the token-level semantics of all eight step kinds (Proofs/StepToks.lean) for unbounded documents, incl. the last sentence of the property for all step kinds and for composed mappings of whole histories.",
+   note=T + "Guard of the replace-around theorems: not (empty gap at the end of the range with slice content after it) — the excluded shape is a recorded finding (C03-touching-empty-gap), no library operation emits it.",
    design="§5 C03"),
+ "C04": dict(
+   technique="Lean 4 theorems: history bookkeeping invariant for any sequence of attempted steps; inverse maps; EXACT UNDO INCLUDING SUCCESS of replace steps (replace_undo, guard sidesCompatible; unguarded when a slice side is closed or compatibility is transitive), replace-around steps (guards gapFitsBack / sidesCompatibleAround / structure), attribute, doc-attribute and node-mark steps; guards tied exactly to the real code; effect-level correspondence of invert; histories replayed and undone",
+   text="21 kernel-checked theorems (Props/C04.lean; ~7 k lines in Proofs/Undo*, Reinsert, MarkupSuccess): the inverse of an applied step applies and restores the document, for all documents and slices, under explicit decidable guards each of which is shown necessary by a counterexample theorem evaluated in the model and reproduced on the real code (recorded findings: non-transitive join, text gap, structure flag, node marks).",
+   note=T + "The guards are Bool predicates of the model (PM/UndoGuard.lean) compared exactly with the same quantities computed from the real code on every generated case; guard true and real undo failing would be reported.",
+   design="§5 C04"),
  "C05": dict(
-   technique="Lean 4 round-trip theorems fromJson(toJson x) = x for marks, nodes (any depth), fragments, slices and the eight step kinds, attribute defaulting, registry; exact differential correspondence of to_json/from_json through real json.dumps/loads; round-trip + effect + aliasing oracle",
-   text="10 kernel-checked theorems (Props/C05.lean) over a model of the JSON forms (PM/Json.lean) for unbounded documents; the real to_json output (after json.dumps/loads) is compared with the model's and from_json results are compared both ways on generated documents, slices, marks and steps; the oracle checks equality, identical re-serialisation, identical effect and map of decoded steps, registry contents and (by mutation) that produced JSON does not alias live objects.",
-   note="Trusted: Lean kernel, model tied by sampling, harness; Python's json/str encoding is modelled as the identity on JSON data. 'Does not alias live attribute objects' is object identity, outside a pure model: decided by the mutation probe only (stated in evidence).",
+   technique="Lean 4 round-trip theorems fromJson(toJson x) = x for marks, nodes (any depth), fragments, slices and the eight step kinds, attribute defaulting, registry; exact correspondence of to_json/from_json through real json.dumps/loads; aliasing probe; registry probed from a fresh interpreter; malformed-JSON stream",
+   text="10 kernel-checked theorems (Props/C05.lean) over a model of the JSON forms for unbounded documents; real to_json / from_json compared both ways on generated objects incl. structured attribute values.",
+   note=T + "Python's json/str encoding is modelled as the identity on JSON data. 'Does not alias live attribute objects' is object identity, outside a pure model: decided by the mutation probe only.",
    design="§5 C05"),
  "C06": dict(
-   technique="verified certificate checker: Lean 4 theorems equivCheck_accepts / equivCheck_live (bisimulation up to Antimirov partial derivatives; semantics = Mathlib RegularExpression.matches') + translator regenerating lean/Gen/DfaCerts.lean from the automata the running code compiles (one `decide +kernel` instance per bundled-family expression) + evaluation of the checker on enumerated/random expressions + accept/reject tie for malformed expressions + independent Python-regex oracle on child sequences",
-   text="Automaton equivalence for sequences of unbounded length is decided by a kernel-checked theorem about a Bool checker; for every content expression of the bundled-family schemas the instance is re-proved by the kernel on every run against the ContentMatch graph the current code builds (50 instances); for enumerated (syntax-tree depth bound) and random expressions the same checker is evaluated by the compiled driver; well-formedness (syntax, unknown names, inline/block mixing, dead ends) is compared with the model's reading of the grammar.",
-   note="Trusted: Lean kernel (+ Mathlib's RegularExpression definitions, which are what 'the expression read as a regular expression' means here), the 60-line grammar reader specParse (it *is* the specification; its evaluation by the driver is not kernel-checked), the certificate search is untrusted, the harness dump of ContentMatch graphs. For non-bundled expressions the checker's verdict is computed by compiled Lean code, not the kernel.",
+   technique="Lean 4 theorems compile_accepts / compile_live: for EVERY expression the automaton produced by the model of the real compiler (parser AST, nfa, null_from, dfa, BFS numbering) accepts exactly the expression's language and keeps exactly the extendable prefixes alive, plus compile_deadEnd; the model is tied exactly to the real compiler (AST, NFA, closures, automaton, accept/reject) on every generated expression; additionally a verified certificate checker re-proves equivalence by the kernel for the bundled expressions against the automata dumped from the running code (regenerated lean/Gen/DfaCerts.lean)",
+   text="14 kernel-checked theorems (Props/C06.lean; Proofs/Compile*.lean, Proofs/Regex.lean; semantics = Mathlib RegularExpression.matches') for all expressions and sequences of unbounded length, plus ~50 regenerated certificate theorems per run. The proof of the general theorem exposed two defects of the pinned code (`{0,}` loop on a shared node; local dead-end check), both repaired.",
+   note=T + "The grammar reader specParse (60 lines) is the specification of 'the expression read as a regular expression'; Expr.toRE(parse) = specParse is tied, not proved (the parser is `partial`).",
    design="§5 C06"),
- "C13": dict(
-   technique="Lean 4 theorems: per-token effect of add-mark / remove-mark steps (documented add rule C14.addSpec under parent permission, structure/text unchanged, nothing outside the range changes), node-level steps change only the addressed token, retyping replace-around keeps the children; relational tie of the Transform planners (every emitted step applied by the model) + per-token oracle on final documents",
-   text="7 kernel-checked theorems (Props/C13.lean) from the token semantics of the mark steps for arbitrary exclusion relations and unbounded documents; Transform.add_mark/remove_mark/add_node_mark/remove_node_mark/set_node_attribute/set_block_type/set_node_markup are run on generated inputs, each emitted step is re-applied by the model (same document) and the final document is checked token by token against the documented effect.",
-   note="Trusted: Lean kernel, model tied by sampling, harness. The range-coalescing planners themselves (which steps add_mark/remove_mark emit) are not modelled: their effect is decided by the oracle; inline non-atom nodes are skipped by AddMarkStep by design and are not pinned.",
-   design="§5 C13"),
- "C17": dict(
-   technique="Lean 4 theorems: rebasing a replace step over a separated replace step's map never drops it and shifts it exactly; both orders yield the same token sequence and (normal form) the same document; positions outside a range are never flagged deleted; relational tie of Step.map (model's rebased step applied by the real code) + convergence oracle over pairs from all high-level operations",
-   text="4 kernel-checked theorems (Props/C17.lean) for pairs of replace steps with arbitrary slices on unbounded documents; for pairs of steps of every kind produced by random high-level operations on a common base document with separated ranges, the real code's rebased steps and the model's are compared by effect and the full convergence check (not dropped, both orders succeed, equal documents) runs on the real code.",
-   note="Trusted: Lean kernel, model tied by sampling, harness. Theorems cover replace/replace pairs; pairs involving replace-around and markup steps are decided by correspondence + search only. 'Both orders succeed' is conditional in the theorems (decided by search).",
-   design="§5 C17"),
-
- "C04": dict(
-   technique="Lean 4 theorems: history bookkeeping invariant (alignment, recorded maps, replay) for any sequence of attempted steps; inverse maps; exact undo of replace / replace-around / attr / doc-attr / node-mark steps (conditional on the inverse applying, with the guards proved necessary); tie of invert by effect (model's inverse applied by the real code) + replay/undo oracle over random histories",
-   text="11 kernel-checked theorems (Props/C04.lean): history_inv over the model of Transform.step/maybe_step/add_step for histories of any length, invert_map_* position-wise, *_undo_partial giving document equality via token injectivity, and nodeMark_undo_needs_guard showing the single-mark inverse cannot work when two marks are displaced. Histories of up to 12 random Transform operations over the bundled-family schemas are replayed and undone on the real code; single steps are undone under every schema; the model's inverse is applied by the real code and must restore the document exactly when the real inverse does.",
-   note="Trusted: Lean kernel, models tied by sampling, harness. That the inverse step *applies* is decided by search (theorems are conditional on it). Open known findings (upstream semantics, matched by class): C04-leaf-retype, C04-node-mark-inverse. Exact undo of add_mark/remove_mark plans is covered through the per-step undo of the steps they emit (oracle), not by a planner theorem.",
-   design="§5 C04"),
+ "C07": dict(
+   technique="Lean 4 theorems: valid_content / check / can_replace / can_replace_with / can_append / create_checked equal the definition of validity over the spliced child sequence; node-level tables of a compiled schema follow from the spec (compileSchema); exact correspondence of all predicates, of create_checked and of schema construction field by field",
+   text="18 kernel-checked theorems (Props/C07.lean) for arbitrary automata and nodes; exact correspondence of the predicates on generated nodes, index ranges, replacement fragments and candidate types every run; the independent validator decides the expected answers.",
+   note=T + "The automaton is an input here; its agreement with the content expression is C06's subject.",
+   design="§5 C07"),
+ "C08": dict(
+   technique="Lean 4 theorems over an executable model of StepMap/Mapping (prefix-sum rule, monotonicity, deletion flags, recover, for_each, touches, inversion, composition under slice/append/invert, mirror round trip for palindrome chains of any length) + exact correspondence of every map/mapping operation + copy-independence oracle",
+   text="23 kernel-checked theorems (Props/C08.lean) for maps with any number of ranges of any size, both orientations and sides; exhaustive small scope in the thorough tier.",
+   note=T + "Guards: WF (sorted, non-overlapping) for the rule; StrictWF (a position between ranges) for for_each/map agreement and mirror round trips, with counterexample theorems showing the guard is needed.",
+   design="§5 C08"),
+ "C09": dict(
+   technique="Lean 4 theorems relating resolve and every accessor (depth, ancestors, indices, start/end/before/after, offsets, node before/after, marks, marks_across, shared depth, block range, NodeRange), node_at, nodes_between (sound AND complete, document order), range_has_mark and text_between (with separators) to the flat UTF-16 token sequence; exact correspondence of every accessor at every aligned position / range; token-picture oracles",
+   text="40 kernel-checked theorems (Props/C09.lean; Proofs/Resolve, ResolveNodes, Traverse, Range) for unbounded documents.",
+   note=T + "Guards: pair-aligned positions; NoEmptyText (implied by normal form) where the code clips empty text nodes.",
+   design="§5 C09"),
  "C10": dict(
-   technique="effect summary regenerated from the source on every run (AST mutation-site table with reaching definitions -> lean/Gen/Effects.lean, `decide +kernel`: no site is external) + Lean frame theorems (transform / mapping only append) + snapshot search over random histories",
-   text="Partial by nature: a pure model cannot prove absence of in-place mutation. The translator lists every syntactic mutation site (~320) of prosemirror/model and prosemirror/transform keyed by function, receiver, mutator and the definitions reaching the receiver, classifies it by rule (init / fresh / accumulator / private-state / pure-method / reviewed) and the kernel checks that none is external; 3 theorems show the accumulators change only by appending; the snapshot harness serialises every live document, fragment, slice, mark list, step and map before each operation of random histories and compares afterwards, plus the shared singletons.",
-   note="Trusted: the syntactic, intra-procedural escape analysis and its rule set (largest trusted piece; mutation through aliases made in another function, setattr or C extensions is invisible to it), the reviewed-sites table, Lean kernel for the `decide`, the snapshot harness. A new unclassifiable site breaks the theorem; the snapshot search then looks for a witness.",
+   technique="effect summary regenerated from the source on every run (AST mutation-site table with reaching definitions -> lean/Gen/Effects.lean, `decide +kernel`: no site is external) + Lean append-only frame theorems for the two accumulators + snapshot search over random histories incl. operation arguments, DOM parsing with mark-clearing style rules, mirrored mappings",
+   text="Partial by nature: a pure model cannot prove absence of in-place mutation. 3 theorems + 1 regenerated obligation; the translator keys every syntactic mutation site by function, receiver, mutator and reaching definitions and classifies it by rule (private state = an object's own fields only).",
+   note=T + "Largest trusted piece: the syntactic, intra-procedural escape analysis and its reviewed-site table; mutation through aliases made in another function, setattr or C extensions is found by the snapshot search only.",
    design="§5 C10"),
  "C11": dict(
-   technique="Lean 4 theorems: a step satisfying the monitor `respects` (range differs from the request only by structural tokens; inserted text is a subsequence of the requested text) preserves all text/leaf content before and after the range once it applies; recorded documents are valid (C01); relational tie: the monitor is evaluated by the compiled model on every step the real replace-family operations emit and each emitted step is applied by the model too; totality by search only",
-   text="4 kernel-checked theorems (Props/C11.lean) independent of the fitting heuristic and of the schema; on every run the seven replace-family operations are executed on generated documents/slices/nodes over the bundled-family schemas (totality, validity, content preservation) and random schemas (validity, content preservation), every emitted step passes `respects` and is reproduced by the model's apply.",
-   note="Trusted: Lean kernel, models tied by sampling, harness. Totality ('never raises') is NOT a theorem — it would need a model of the ~400-line fitting algorithm with termination and assertion-freeness — and is decided by search over the bundled-family schemas only (stated in evidence). Multi-step operations are covered by the oracle on the final document; the monitor is evaluated on single-step operations.",
+   technique="Lean 4 theorems over an executable model of replace_step incl. the Fitter as a state machine, fits_trivially and delete_range: the emitted step starts at `from`, extends the range only over close tokens (fit_range), inserts only an in-order subsequence of the requested text (fitter text invariant), hence content preservation for every fitted replace step and for delete_range as a whole; exact correspondence of the emitted step with the real replace_step / delete_range on every generated case; totality by search over the bundled family",
+   text="19 kernel-checked theorems (Props/C11.lean; Proofs/Fitter, FitterText, RangeOps, Respects). The Fitter model agrees with the real fitter on >10^5 generated requests per thorough run.",
+   note=T + "fitter_respects is partial for replace-around steps (one conjunct stays a monitored hypothesis); 'never raises' is decided by search (open finding C11-fitter-partial-node: clipboard-style slices); termination of the real loops by a per-call alarm.",
    design="§5 C11"),
  "C12": dict(
-   technique="Lean 4 theorems: content_between answers 'no' only for ranges of open/close tokens; a structure-flagged step whose slice has no content preserves the text/leaf sequence exactly and yields a valid document; relational tie: `isStructuralAt` evaluated on every step split/join/lift/wrap emit + model apply; approve=>perform=>succeeds oracle for the seven helpers",
-   text="3 kernel-checked theorems (Props/C12.lean) incl. the path-based model of content_between related to the token sequence; on every run all helpers are asked at every position of generated documents, every approved edit is performed (must succeed, be valid, keep the leaf sequence), results must be in range and no helper may die with an internal error; emitted steps pass the structural monitor and are reproduced by the model.",
-   note="Trusted: Lean kernel, models tied by sampling, harness. 'An approved edit then succeeds' is decided by search (no model of the helpers' decision procedures). Open known findings (upstream algorithms, matched by class): C12-lift-split-invalid, C12-wrap-ignores-marks.",
+   technique="Lean 4 theorems over executable models of the four builders (lift, wrap, split, join) and all helpers (can_split, can_join, join_point, lift_target, find_wrapping, insert_point, drop_point, can_change_type): every built step is structural and, if it applies, preserves the text/leaf sequence exactly; returned positions/depths are in range; the helpers never raise on valid documents and in-range, aligned input; exact correspondence of every built step and every helper answer",
+   text="25 kernel-checked theorems (Props/C12.lean; Proofs/StructEdit, Structure, Structure2).",
+   note=T + "'An approved edit then succeeds' is decided by search on the bundled family (as the property quantifies); open findings: lift of nested list items, wrap ignoring marks, fitter-partial-node in the drop_point follow-up.",
    design="§5 C12"),
+ "C13": dict(
+   technique="Lean 4 theorems over executable models of the planners (add_mark, remove_mark incl. mark-type and all-marks forms, add/remove_node_mark, set_node_attribute, set_node_markup, clear_incompatible, set_block_type): token-level effect of the whole plan (documented add rule, nothing matching left after removal, structure/text and marks outside unchanged, node-level edits local, retyping keeps children); exact correspondence of the emitted step lists and final documents",
+   text="19 kernel-checked theorems (Props/C13.lean; Proofs/MarkPlan, MarkEffect).",
+   note=T + "planAddMark_exact carries the flat-range hypothesis (an inline node with content in the range makes the exact rule false in code and upstream; the general planAddMark_effect holds everywhere). The Fitter answers used by set_node_markup/set_block_type are recorded at run time and replayed to the model.",
+   design="§5 C13"),
+ "C14": dict(
+   technique="Lean 4 theorems: add_to_set equals the documented rule, canonical form is an invariant of every add/remove sequence, check()'s mark test accepts exactly canonical sets, removal/membership/equality/filtering are the set operations; the exclusion and permission tables of a compiled schema follow from the spec (excluded_spec, markSet_spec, compile_accepts_iff); exact correspondence of every mark operation and of schema construction",
+   text="30 kernel-checked theorems (Props/C14.lean; Proofs/Marks, SchemaCompile).",
+   note=T,
+   design="§5 C14"),
  "C15": dict(
-   technique="Lean 4 theorems: meaning of the checkable predicates isFill / isWrapChain, soundness AND completeness of the depth-first filler search with global seen-set, soundness of the breadth-first wrapper search; relational tie: the real answers of fill_before / find_wrapping are checked with the Lean predicates and compared (some/none, chain length) with the model's search; brute-force oracle",
-   text="6 kernel-checked theorems (Props/C15.lean) over arbitrary deterministic automata; every match state of every content automaton of the bundled-family and random schemas is queried with random following fragments / target types, the real answers must satisfy isFill / isWrapChain (evaluated by the compiled model), 'nothing' answers are cross-checked against the model's complete search and a brute-force enumeration, chains must be shortest; create_and_fill results are validated.",
-   note="Trusted: Lean kernel, model lean/PM/Fill.lean tied by sampling, harness. Guards: deterministic automaton (one edge per label — true of every subset-construction output; the harness dumps are checked), edge targets in range. Shortest-chain and completeness of find_wrapping are decided by brute force up to length 3, not by a theorem. create_and_fill is oracle-only.",
+   technique="Lean 4 theorems: filler search sound and complete; wrapper search sound, COMPLETE and SHORTEST; create_and_fill returns a valid node containing the content in order, returns nothing exactly when no filling exists (LiveSchema), never dies internally; exact correspondence of fill_before, find_wrapping (same chain) and create_and_fill",
+   text="15 kernel-checked theorems (Props/C15.lean; Proofs/Fill, Wrap, CreateFill, MkNode).",
+   note=T + "Guards: deterministic automata, LiveSchema (what the repaired dead-end check of the schema constructor guarantees). Recursion of create_and_fill on ill-founded schemas is modelled by fuel with an explicit outOfFuel outcome.",
    design="§5 C15"),
  "C16": dict(
-   technique="Lean 4 theorems: for every pair that merges (both adjacency orders of replace steps incl. the empty-slice case, add/add and remove/remove mark steps) the merged step yields exactly the token sequence of the two-step result, hence equal documents in normal form and equal size delta; relational tie: the model's merged step applied by the real code reproduces the two-step result; oracle on real merges",
-   text="3 kernel-checked theorems (Props/C16.lean) from the token semantics of replace and mark steps; editing-shaped pairs (typing, backspacing, open slices, touching/overlapping mark ranges) over the bundled-family schemas are applied, merged and compared on the real code; the model's merge is applied by the real code as well.",
-   note="Trusted: Lean kernel, models tied by sampling, harness. That the merged step applies whenever the pair does is decided by search (theorems are conditional on it); which pairs merge is not pinned.",
+   technique="Lean 4 theorems: a merged step yields the token sequence / document of the two steps; merged mark steps APPLY whenever the pair does (merge_succeeds_marks, unconditional equivalence merge_equiv_marks under TextLoop); merged flat replace steps apply (merge_succeeds_replace_flat); relational correspondence of merge; search over bundled and random schemas",
+   text="6 kernel-checked theorems (Props/C16.lean; Proofs/Merge, MarkMerge, FlatReplace).",
+   note=T + "Success of merged replace steps with open slices is decided by search; which pairs merge is not pinned by the property.",
    design="§5 C16"),
+ "C17": dict(
+   technique="Lean 4 theorems: rebasing over a separated step never drops a step and shifts it exactly (replace, replace-around, markup steps); both orders give equal token sequences / documents for replace-replace, replace-node-step, markup-markup pairs and replace-mark pairs under the explicit guard ParentStable; exact correspondence of Step.map incl. overlapping pairs; convergence search",
+   text="16 kernel-checked theorems (Props/C17.lean; Proofs/Commute, CommuteMarkup).",
+   note=T + "'Both rebased steps apply' stays a hypothesis; convergence of replace-around against other steps is search only; open finding C17-parent-retyped (the guard ParentStable is necessary).",
+   design="§5 C17"),
  "C18": dict(
-   technique="Lean 4 theorems: a step whose range lies within an isolating node leaves every token up to its open token and after its closing untouched (strict and boundary-inclusive forms, all step kinds; pure insertions remove nothing); exact tie of Slice.max_open; relational monitor on every emitted step; outside-tokens oracle incl. whole-content ranges; lift/split probes",
-   text="3 kernel-checked theorems (Props/C18.lean); Slice.max_open is compared exactly with the model for both flags; for every isolating node of generated documents of the isolating / table-like schemas, ranges inside it (incl. its whole content) are edited with all replace-family operations: every token up to and including the node's opening and from its closing on must be unchanged (the property read literally: nothing removed, split, merged or added outside the node's content), emitted steps are reproduced by the model and classified by the monitor (most fall under the theorem; the rest re-create the node's own close tokens and are decided by the oracle); lift_target / can_split must not cross the boundary. Two upstream behaviours violate the literal reading and are recorded as open findings (the Fitter places content that does not fit after a closed copy of the node; insert_point walks out of it).",
-   note="Trusted: Lean kernel, models tied by sampling, harness. The range-expansion / fitting heuristics are not modelled; the monitor is sufficient, not necessary (coverage reported in evidence). The oracle states the property literally; the two upstream behaviours that violate it are open known findings narrowed by the frozen reference copy (DESIGN.md §2.5, §7).",
+   technique="Lean 4 theorems: a step whose range lies within an isolating node leaves everything outside untouched; covered_depths, delete_range's widened range, lift_target and can_split never cross an isolating ancestor (over executable models tied exactly); exact correspondence of Slice.max_open, the emitted steps and the helpers; literal token oracle",
+   text="14 kernel-checked theorems (Props/C18.lean; Proofs/Structure, RangeOps).",
+   note=T + "Open findings (upstream): the Fitter splits an isolating node when content cannot be placed; insert_point walks out of it; fitter-partial-node.",
    design="§5 C18"),
  "C19": dict(
-   technique="Lean 4 theorems for the part that is logic: html.escape is lossless and leaves no raw markup, the mark-stack serializer carries the document text; exact tie of the serialised HTML with the model (PM/Dom.lean); search for everything in lxml/cssselect/re: parse terminates (alarm), never crashes, yields valid documents, context rules apply only under matching ancestors, serialise->parse round trip on whitespace-normal documents",
-   text="Partial by nature: 4 kernel-checked theorems (Props/C19.lean) about escaping and text preservation of the serializer model, which is compared string-for-string with the real serializer on generated documents; HTML import is exercised on generated fragments over the block / inline / list / table / ignorable vocabulary with whitespace, style attributes, missing attributes and comments under three schemas (basic, list, context-rule), each call under an alarm; results are validated by check() and the independent validator; round trip on whitespace-normal documents with rule-carried attributes.",
-   note="Trusted: Lean kernel, model tied by sampling, harness, lxml as independent HTML reader for the escaping oracle. NOT modelled: the parser's placement core, DOM walking, rule/selector/regex matching — termination and crash-freedom of import are decided by search only (stated in evidence).",
+   technique="Lean 4 theorems for the logic of both directions: escaping is lossless, the serializer carries the text; context expressions match exactly the declarative reading (matchesContext_spec); the parser's placement core keeps every open context's match coherent with its content and finish yields a schema-valid document for every event sequence (placement_finish_valid); exact ties: serializer output, matches_context, and the placement core replayed from events recorded from real parses",
+   text="12 kernel-checked theorems (Props/C19.lean; Proofs/Dom, FromDom, Placement*).",
+   note=T + "NOT modelled: lxml parsing, CSS selector and regex matching, DOM walking — their termination and crash-freedom are decided by search with a per-call alarm. placement_finish_valid needs TextStable (counterexample schema recorded).",
    design="§5 C19"),
+ "C20": dict(
+   technique="Lean 4 theorems: find_diff_start/end return none iff equal and otherwise the common prefix/suffix length of the marked-up token sequences; exact correspondence incl. identity-sharing before/after pairs under a per-call alarm",
+   text="6 kernel-checked theorems (Props/C20.lean).",
+   note=T + "Termination of the Python loops is decided by the alarm; guard: normal form.",
+   design="§5 C20"),
 }
 
 NOT_YET = {
@@ -152,7 +151,7 @@ def main():
         }],
         "checks": checks,
         "not_applicable": na,
-        "notes": "See DESIGN.md. Fix commits in /repo (31) and the 9 open findings are recorded in KNOWN_FINDINGS.jsonl; an open finding matches a violation only if its class predicate (harness/findings.py) holds and the tree under check behaves on that input exactly as the frozen copy of the library under /verif/reference (harness/reference.py). Seeded changes used to test the checks are under /verif/seeded (DESIGN.md §9).",
+        "notes": "See DESIGN.md. Fix commits in /repo (34) and the open findings are recorded in KNOWN_FINDINGS.jsonl; an open finding matches a violation only if its class predicate (harness/findings.py) holds and the tree under check behaves on that input exactly as the frozen copy of the library under /verif/reference (harness/reference.py). Seeded changes used to test the checks are under /verif/seeded (DESIGN.md §9).",
     }
     json.dump(m, open(os.path.join(V, "MANIFEST.json"), "w"), indent=1)
     print("claimed", [c["property_id"] for c in checks])
